@@ -50,4 +50,40 @@ def appendEffs (v : View) (n : Nat) : List Eff :=
 def appendEffsOriginal (v : View) (n : Nat) : List Eff :=
   [.indexStore (v.fileLen + n), .metaStore, .dataVisible n]
 
+/-! ### `chgstatus`: one in-place store of a metadata word per changed entry -/
+
+/-- The status words of the listed entries, as a reader sees them. -/
+abbrev Statuses := List Nat
+
+/-- One visible effect of `chgstatus`: the status of entry `i` becomes `st` (a single aligned 8-byte store
+    through the shared mapping; depth, identifier, index and data are untouched). -/
+def applyStatus (v : Statuses) (e : Nat × Nat) : Statuses := v.set e.1 e.2
+
+def visibleStatuses (v : Statuses) (effs : List (Nat × Nat)) : Statuses := effs.foldl applyStatus v
+
+/-- The stores performed by `chgstatus <st> <ids>` on entries `(id, status)`, in file order: the live entries
+    with a listed identifier whose status differs from the new one. -/
+def chgEffsFrom (st : Nat) (ids : List Nat) : Nat → List (Nat × Nat) → List (Nat × Nat)
+  | _, [] => []
+  | i, (id, s) :: t =>
+    if s > 1 ∧ ids.contains id ∧ s ≠ st then (i, st) :: chgEffsFrom st ids (i + 1) t
+    else chgEffsFrom st ids (i + 1) t
+
+def chgEffs (st : Nat) (ids : List Nat) (entries : List (Nat × Nat)) : List (Nat × Nat) :=
+  chgEffsFrom st ids 0 entries
+
+/-! ### `purge`: the new file is written under a temporary name, then renamed over the old one -/
+
+inductive PurgeEff where
+  | tmpWritten      -- temporary file created / written / flushed (invisible under the set's name)
+  | rename          -- atomic replacement of the set by the temporary file
+  | lockRemoved
+  deriving Repr, DecidableEq
+
+/-- What a reader opening the SET'S NAME sees: the old content until the rename, the new one after. -/
+def purgeView {α : Type} (old new : α) (effs : List PurgeEff) : α :=
+  if effs.contains .rename then new else old
+
+def purgeEffs : List PurgeEff := [.tmpWritten, .rename, .lockRemoved]
+
 end Moc
